@@ -6,4 +6,5 @@ TRUSTED = ['kill inside rename; OS lock semantics', 'z3 5.1 / cvc5 1.0.3 / z3 4.
 LEVEL_NOTE = 'kill inside rename; OS lock semantics'
 
 from bounded.wire import run_c16
-BOUNDED = [("job index over sequences of real runs", run_c16)]
+from bounded.cleaning import run_cleaning
+BOUNDED = [("job index over sequences of real runs", run_c16), ("orphans reads both indexes (jobs clean / orphans --clean on workspaces)", run_cleaning)]
